@@ -87,6 +87,10 @@ func (w *world) obj(id int) interface{} {
 		return w.structObj(id, n.gotype)
 	case 'F':
 		o = newReflectObj(w, id, n.gotype)
+	case 'V':
+		// reflection over methods with value receivers: the values of a type are struct values and
+		// pointers to struct values side by side
+		o = newValueObj(w, id, n.gotype, true)
 	case 'M':
 		// the values of one GraphQL type use different strategies: Resolver values and plain values
 		// found by reflection, side by side in one graph
